@@ -44,6 +44,7 @@ NewObj(kind, dir, c, w, bs, unit, fam, iv, via, from, pos, status) ==
    pred |-> <<>>,                       \* bytes the machine predicts for the same calls
    exps |-> <<>>,                       \* exported states: [n, v, p, pv]
    moved |-> FALSE,                     \* position changed by seek / set_block_pos (inp/out no longer one run)
+   movedAt |-> -1,                      \* Len(inp) at the last such move (-1: never)
    nref |-> 0,                          \* calls inside the domain that were refused or panicked
    off |-> FALSE,                       \* a call OUTSIDE the object's domain was accepted (e.g. a request past the end
                                         \* of the keystream): what it does afterwards is unspecified; C11 / C13 judge the
@@ -181,7 +182,7 @@ Seek(o, t, p, res) ==
       pres == IF NLe(p, EndPos(ob.kind, ob.bs)) THEN "ok" ELSE "err"
   IN  /\ Live(o) /\ ob.kind \in SeekKinds
       /\ objs' = [objs EXCEPT ![o] = [ob EXCEPT !.st = IF res = "ok" THEN StOfPos(p, ob.bs) ELSE @,
-                                                 !.moved = TRUE,
+                                                 !.moved = TRUE, !.movedAt = Len(ob.inp),
                                                  !.off = @ \/ (res = "ok" /\ pres # "ok"),
                                                  !.status = IF res = "panic" THEN "dead" ELSE @]]
       /\ last' = [Lst("seek", o, res, pres) EXCEPT !.t = t, !.v = p]
@@ -211,7 +212,7 @@ SetBpos(o, v, res) ==
   LET ob == objs[o] IN
       /\ Live(o) /\ BaseKind(ob.kind) \in SeekKinds   \* cores directly; byte-level wrappers via from_core
       /\ objs' = [objs EXCEPT ![o] = [ob EXCEPT !.st = IF res = "ok" THEN [blk |-> v, off |-> 0] ELSE @,
-                                                 !.moved = TRUE,
+                                                 !.moved = TRUE, !.movedAt = Len(ob.inp),
                                                  !.status = IF res = "panic" THEN "dead" ELSE @]]
       /\ last' = [Lst("setbpos", o, res, "ok") EXCEPT !.v = v]
       /\ UNCHANGED <<ks, ksbad, dbg>>
